@@ -38,7 +38,7 @@ func termsOf(l *calendar.Lunar) []Term {
 func init() {
 	register(&Check{
 		ID:            "C05",
-		Rule:          "every civil day in the year set (thorough: all days 1..9998) x (26 slot-edge times + {t-1s,t,t+1s} for every solar-term instant t on that day): all pillar getters (index and string forms, EightChar under sect 1 and 2) compared with the mod-60 reference evaluated on the library's own term table. non-trivial = states lying on a change-over: 23:00 edge, a Jie day/instant, Lichun day/instant, lunar New Year's Day",
+		Rule:          "every civil day in the year set (thorough: all days 1..9998) x (26 slot-edge times [quick: the 4 edges of the first and last slot + 3 rotating inner slots = 10] + {t-1s,t,t+1s} for every solar-term instant t on that day): all pillar getters (index and string forms, EightChar under sect 1 and 2) compared with the mod-60 reference evaluated on the library's own term table. non-trivial = states lying on a change-over: 23:00 edge, a Jie day/instant, Lichun day/instant, lunar New Year's Day",
 		Assume:        []string{"day pillar anchor (JDN+49) mod 60 (2000-01-01 = wu-wu, index 54)", "whether the term table itself is right is C03's job; C05 takes the library's own term days/instants"},
 		Shards:        func(tier string, seed int64) []Shard { return yearShards(tier, seed, 9998, "") },
 		Run:           runC05,
@@ -55,6 +55,38 @@ func inJiaZi(s string) bool { return LunarUtil.GetJiaZiIndex(s) >= 0 }
 
 func runC05(w *W) {
 	perturbCache = true
+	// every minute of one day per shard (first and last second of the minute), and the slot helper on all 1440
+	// "HH:MM" strings: the hour branch is a function of the two-hour slot alone, the stem follows the (early-rat) day stem
+	if len(w.Shard.Ranges) > 0 {
+		y := w.Shard.Ranges[0][0]
+		j := r1JDN(y, 1, 1) + (y*7)%300
+		cy, cm, cd := r1FromJDN(j)
+		di := r2DayIndex(j)
+		for mi := 0; mi < 1440; mi++ {
+			h, m := mi/60, mi%60
+			slot := ((h + 1) / 2) % 12
+			hm := fmt.Sprintf("%02d:%02d", h, m)
+			if g := LunarUtil.GetTimeZhiIndex(hm); g != slot || LunarUtil.ConvertTime(hm) != zhiS[slot] {
+				w.Viol("C05:GetTimeZhiIndex:"+hm, fmt.Sprintf("GetTimeZhiIndex(%q) = %d, ConvertTime = %s; the slot is %d %s", hm, g, LunarUtil.ConvertTime(hm), slot, zhiS[slot]), hm)
+			}
+			ex := di
+			if h == 23 {
+				ex = (di + 1) % 60
+			}
+			for _, sec := range []int{0, 59} {
+				var l *calendar.Lunar
+				if msg, p := try(func() { l = calendar.NewSolar(cy, cm, cd, h, m, sec).GetLunar() }); p {
+					w.Viol("C05:minute:panic:"+hm, msg, hm)
+					continue
+				}
+				w.R.Evals++
+				if l.GetTimeZhiIndex() != slot || l.GetTimeGanIndex() != (ex%10%5*2+slot)%10 || l.GetDayInGanZhiExact() != gz(ex) || l.GetDayInGanZhiExact2() != gz(di) || l.GetDayInGanZhi() != gz(di) {
+					w.Viol("C05:minute:"+hm, fmt.Sprintf("%04d-%02d-%02d %s:%02d: hour pillar %s, day pillars %s/%s/%s; rule says hour %s, day %s/%s/%s", cy, cm, cd, hm, sec,
+						l.GetTimeInGanZhi(), l.GetDayInGanZhi(), l.GetDayInGanZhiExact(), l.GetDayInGanZhiExact2(), ganS[(ex%10%5*2+slot)%10]+zhiS[slot], gz(di), gz(ex), gz(di)), hm)
+				}
+			}
+		}
+	}
 	sweepDays(w, "C05", func(d *Day, prev *Day) {
 		l0 := d.L()
 		terms := termsOf(l0)
@@ -74,6 +106,15 @@ func runC05(w *W) {
 			return
 		}
 		times := append([]hms{}, tbTimes...)
+		if !w.Thorough() {
+			// quick tier: both edges of the day's first and last slot on every day, and three of the eleven inner slots
+			// (both edges each), rotating with the day number so that every slot edge is visited every 11 days
+			times = append([]hms{}, tbTimes[0], tbTimes[1], tbTimes[24], tbTimes[25])
+			for _, k := range []int{d.J % 11, (d.J + 4) % 11, (d.J + 7) % 11} {
+				times = append(times, tbTimes[2+2*k], tbTimes[3+2*k])
+			}
+		}
+		nBase := len(times)
 		for _, t := range terms {
 			if t.J == d.J {
 				for _, ds := range []int{-1, 0, 1} {
@@ -191,7 +232,7 @@ func runC05(w *W) {
 			}
 			// --- the same moment given as a time.Time with a sub-second part lies in the same second, slot, day and
 			// term interval: its pillars are those of the integer route (moments one second before a change-over)
-			if t.s == 59 || len(times) > len(tbTimes) {
+			if t.s == 59 || len(times) > nBase {
 				ns := 500000000
 				if d.J%2 == 1 {
 					ns = 999999999
